@@ -12,7 +12,9 @@ verus! {
 #[derive(Clone, Copy)]
 pub struct TokenKey { pub hi: u128, pub lo: u128 }
 pub struct FeedAccount { pub tag: Ghost<int> }
+//@struct programs/store/src/states/oracle/mod.rs :: pub(crate) struct OraclePriceParts :: oracle_slot, oracle_ts, price, ref_price, is_open
 pub struct OraclePriceParts { pub oracle_slot: u64, pub oracle_ts: i64, pub price: UPrice, pub ref_price: Option<Decimal>, pub is_open: bool }
+//@struct programs/store/src/states/oracle/mod.rs :: struct OraclePrice :: provider, parts
 pub struct OraclePrice { pub provider: PriceProviderKind, pub parts: OraclePriceParts }
 pub uninterp spec fn parsed_of(config: TokenConfig, feed: FeedAccount, allow_closed: bool) -> Option<OraclePrice>;
 impl OraclePrice {
@@ -62,6 +64,17 @@ pub open spec fn fresh(v: PriceValidator, c: TokenConfig, p: OraclePrice) -> boo
     c.timestamp_adjustment.is_some() && c.max_deviation_factor.is_some()
         && v.clock.unix_timestamp - (p.parts.oracle_ts - c.timestamp_adjustment.unwrap()) <= v.max_age
         && p.parts.oracle_ts - v.clock.unix_timestamp <= v.max_future_timestamp_excess
+        && within_deviation(c, p.parts.price, p.parts.ref_price)
+}
+/// the deviation clause of validate_one's contract, for the price that is STORED: with a configured factor and a non-zero deviation both
+/// sides lie within the (rounded-up) deviation from the reference price
+pub open spec fn within_deviation(c: TokenConfig, price: UPrice, rp: Option<Decimal>) -> bool {
+    let ref_price: Option<&Decimal> = match rp { Some(d) => Some(&d), None => None };
+    (c.max_deviation_factor.unwrap().is_some() && dev_of(price, ref_price, c.max_deviation_factor.unwrap().unwrap()) > 0) ==> ({
+        let reference = reference_of(price, ref_price);
+        let tol = dev_rounded(dev_of(price, ref_price, c.max_deviation_factor.unwrap().unwrap()), p10(price.max.decimal_multiplier as nat));
+        adist(unit_price(price.max), reference) <= tol && adist(unit_price(price.min), reference) <= tol
+    })
 }
 /// the i-th token: configured, enabled, parsed from the i-th account, accepted by the validator, and stored as parsed
 pub open spec fn stored_ok(v: PriceValidator, map: TokenMapRef, tokens: Seq<TokenKey>, accounts: Seq<FeedAccount>, allow_closed: bool, log: Seq<SetEntry>, base: int, i: int) -> bool {
